@@ -135,6 +135,7 @@ def _hyp_worker(args):
         stats = Stats()
         failing = {}
 
+        shrink_budget = 10 if tier == 'quick' else 90
         phases = [Phase.generate] + ([Phase.shrink] if shrink else [])
 
         @hypothesis.seed(seed * 1000003 + shard * 7919 + 1)
@@ -143,10 +144,17 @@ def _hyp_worker(args):
                   suppress_health_check=list(HealthCheck), print_blob=False)
         @given(prop.strategy(tier))
         def run(case):
+            # shrinking is bounded by wall-clock: once the budget is spent every case but
+            # the best failing one found so far passes at once, which ends the shrinker
+            if failing and time.time() - failing['since'] > shrink_budget:
+                if case_digest(case) != failing['digest']:
+                    return
             res = prop.evaluate(case)
             bad = stats.add(case, res, known_sigs)
             if bad:
+                failing.setdefault('since', time.time())
                 failing['case'] = case
+                failing['digest'] = case_digest(case)
                 failing['violations'] = [v.as_dict() for v in bad]
                 raise CaseFailed(bad[0].sig)
 
